@@ -5,6 +5,7 @@ import (
 	"go/ast"
 	"go/parser"
 	"go/token"
+	"net/http"
 	"os"
 	"path/filepath"
 	"sort"
@@ -259,4 +260,88 @@ func ScanRepo(repo string) *scanner {
 	})
 	sort.Strings(s.Routers)
 	return s
+}
+
+// HeaderRead is one place where the router-wide middleware code reads a request header.
+type HeaderRead struct {
+	File string
+	Line int
+	Name string // canonical header name, or "<dynamic: expr>"
+	How  string
+}
+
+// ScanHeaderReads lists every request-header read in the code that runs for every request before the route
+// handlers: package main (main.go ...), reader/main.go, reader/utils/middleware, shared/.  Recognised shapes:
+// X.Header.Get(..) / .Values(..) / X.Header[..] where Header is a field (a response's w.Header() is a call and is
+// skipped), and the net/http helpers Referer(), UserAgent(), BasicAuth(), Cookie(s)().
+func ScanHeaderReads(repo string) []HeaderRead {
+	var files []string
+	for _, g := range []string{"*.go", "reader/main.go", "reader/utils/middleware/*.go", "shared/*.go", "shared/*/*.go", "shared/*/*/*.go"} {
+		m, _ := filepath.Glob(filepath.Join(repo, g))
+		files = append(files, m...)
+	}
+	sort.Strings(files)
+	fset := token.NewFileSet()
+	var out []HeaderRead
+	seen := map[string]bool{}
+	for _, path := range files {
+		if strings.HasSuffix(path, "_test.go") || seen[path] {
+			continue
+		}
+		seen[path] = true
+		f, err := parser.ParseFile(fset, path, nil, parser.SkipObjectResolution)
+		if err != nil {
+			continue
+		}
+		rel, _ := filepath.Rel(repo, path)
+		isHeaderField := func(e ast.Expr) bool {
+			se, ok := e.(*ast.SelectorExpr)
+			return ok && se.Sel.Name == "Header"
+		}
+		name := func(e ast.Expr) string {
+			if bl, ok := e.(*ast.BasicLit); ok && bl.Kind == token.STRING {
+				if v, err := strconv.Unquote(bl.Value); err == nil {
+					return http.CanonicalHeaderKey(v)
+				}
+			}
+			return "<dynamic: " + exprText(e) + ">"
+		}
+		ast.Inspect(f, func(n ast.Node) bool {
+			switch x := n.(type) {
+			case *ast.CallExpr:
+				sel, ok := x.Fun.(*ast.SelectorExpr)
+				if !ok {
+					return true
+				}
+				pos := fset.Position(x.Pos())
+				switch sel.Sel.Name {
+				case "Get", "Values":
+					if isHeaderField(sel.X) && len(x.Args) == 1 {
+						out = append(out, HeaderRead{rel, pos.Line, name(x.Args[0]), exprText(sel.X) + "." + sel.Sel.Name})
+					}
+				case "Referer":
+					if len(x.Args) == 0 {
+						out = append(out, HeaderRead{rel, pos.Line, "Referer", exprText(sel.X) + ".Referer()"})
+					}
+				case "UserAgent":
+					if len(x.Args) == 0 {
+						out = append(out, HeaderRead{rel, pos.Line, "User-Agent", exprText(sel.X) + ".UserAgent()"})
+					}
+				case "BasicAuth":
+					if len(x.Args) == 0 {
+						out = append(out, HeaderRead{rel, pos.Line, "Authorization", exprText(sel.X) + ".BasicAuth()"})
+					}
+				case "Cookie", "Cookies":
+					out = append(out, HeaderRead{rel, pos.Line, "Cookie", exprText(sel.X) + "." + sel.Sel.Name + "()"})
+				}
+			case *ast.IndexExpr:
+				if isHeaderField(x.X) {
+					pos := fset.Position(x.Pos())
+					out = append(out, HeaderRead{rel, pos.Line, name(x.Index), exprText(x.X) + "[...]"})
+				}
+			}
+			return true
+		})
+	}
+	return out
 }
